@@ -657,6 +657,37 @@ def run(script):
 ''', [("run", [(["a", "b"],), (["closed"],), (["boom"],), (["a", "boom"],), (["a", "closed"],)])])
 
 
+# ---- loops over small literal collections
+case('''
+def run(store, s, orig, t):
+    saved = {s: orig, t: 0}
+    out = []
+    try:
+        store[s] = "tmp"
+        out.append(store[s])
+    finally:
+        for k, v in saved.items():
+            store[k] = v
+            out.append(k)
+    for name in (s, t):
+        out.append(store[name])
+    one = {s: orig}
+    for k, v in one.items():
+        out.append((k, v))
+    return out, sorted(store.items())
+
+def run2(store, s):
+    saved = {s: 1}
+    saved[s] = 2
+    for k, v in saved.items():
+        store[k] = v
+    pairs = [(s, 5)]
+    for k, v in pairs:
+        s = v
+    return sorted(store.items()), s
+''', [("run", [({"a": 1}, "a", 1, "b"), ({}, "x", None, "x")]), ("run2", [({}, "q")])])
+
+
 def outcome(ns, fn, args):
     import copy
     try:
